@@ -47,9 +47,58 @@ DelayStates   == {-1, 0, 5, 10}                    \* ranks of classes of int32 
 EkuStates     == {"none", "known", "unknown", "any", "unknownThenAny", "anyThenUnknown"}
                  \* any: the literal Any among known names; the last two: an unknown name before / after Any
 BackendStates == {"trillian", "ctfe"}              \* extra_data_issuance_chain_storage_backend
-ConnStates    == {"", "mysql://ok", "mysql://bad", "mysql", "postgres://ok", "other://x"}
-                                                    \* "mysql": starts like the mysql scheme, no "://" separator
+\* ctfe_storage_connection_string is judged by its SHAPE (below, "the connection string"): a field state is the NAME of a shape
 PrefixStates  == {"", "a", "b"}                     \* proto3 string: absent = empty
+
+(* ---------------- the shape of the external-storage connection string ---------------- *)
+\* The string reads  <word> [ "://" <data source name> ]; further "://" may occur inside the data source name.  The shape
+\* says which word leads, how many separators there are and where the surplus one sits, and what the driver's own parser
+\* makes of the data source name.  Every shape is materialized in several concrete spellings (harness/c15 conn.go).
+ConnSchemes == {"none",                              \* nothing before the separator / no leading scheme word (also: the empty string)
+                "mysql", "postgres", "postgresql",   \* the schemes the storage layer knows
+                "mysql+", "postgres+",               \* a known scheme with something appended (mysqlx, postgresqlx, mysql+tcp)
+                "upper",                             \* a known scheme in another letter case (MYSQL, PostgreSQL)
+                "prefix",                            \* a proper prefix of a known scheme (my, postgre)
+                "other"}                             \* any other word (spanner, sqlite)
+SupportedSchemes == {"mysql", "postgres", "postgresql"}
+\* where the SECOND separator sits (seps = 2 stands for "two or more"): "scheme": the scheme is written twice
+\* (mysql://mysql://...); otherwise inside that part of the data source name
+ConnExtras  == {"-", "scheme", "user", "password", "addr", "path", "params"}
+\* the data source name as its driver's parser sees it (without the surplus separator): accepted, empty, refused.  With
+\* seps = 0 it is what follows the word after a lesser glue (":", ":/", " "), "empty" being the bare word
+ConnRests   == {"ok", "empty", "bad"}
+ShapeWF(s)  == /\ (s.seps = 2) <=> (s.extra # "-")
+               /\ s.seps = 2 => s.rest # "empty"
+ConnShapes  == {s \in [scheme : ConnSchemes, seps : 0..2, extra : ConnExtras, rest : ConnRests] : ShapeWF(s)}
+ConnName(s) == s.scheme \o "/" \o ToString(s.seps) \o "/" \o s.extra \o "/" \o s.rest
+Shape(sc, n, x, r) == [scheme |-> sc, seps |-> n, extra |-> x, rest |-> r]
+
+\* (named) EmptyDsnIsAllDefaults: both drivers read an empty data source name as "every default"; it parses
+DriverParses(s) == s.rest \in {"ok", "empty"}
+\* (named) UsableMeansStorageOpens: a connection string is usable when the storage layer, given this string, gets as far as
+\* dialling the database: the word before the ONLY separator of the string is exactly a scheme the storage layer knows and
+\* the driver's parser accepts the data source name.  Anything else makes the server exit at instance set-up.
+Usable(s) == s.scheme \in SupportedSchemes /\ s.seps = 1 /\ DriverParses(s)
+\* The decision structure of the storage layer itself (storage.NewIssuanceChainStorage, storage/mysql open, storage/postgresql
+\* open followed by the first connection), as a cross-check of Usable (MCLogConfig: StorageLayerAgrees); the harness runs
+\* the real constructors on every concrete spelling and compares (binding of the oracle to the code).
+StorageOpens(s) ==
+  LET parts == s.seps + 1 IN                                     \* strings.Split(dsn, "://")
+  IF s.scheme \in {"mysql", "mysql+"}                            \* strings.HasPrefix(dbConn, "mysql")
+    THEN parts = 2 /\ s.scheme = "mysql" /\ DriverParses(s)
+  ELSE IF s.scheme \in {"postgres", "postgresql", "postgres+"}   \* strings.HasPrefix(dbConn, "postgres")
+    THEN parts = 2 /\ s.scheme \in {"postgres", "postgresql"} /\ DriverParses(s)
+  ELSE FALSE                                                     \* unsupported driver
+
+ConnStates  == {ConnName(s) : s \in ConnShapes}                  \* the field states: names of shapes
+ShapeOf     == [n \in ConnStates |-> CHOOSE s \in ConnShapes : ConnName(s) = n]
+ConnEmpty   == ConnName(Shape("none", 0, "-", "empty"))          \* the empty string (proto3: absent)
+ConnMysqlOK == ConnName(Shape("mysql", 1, "-", "ok"))
+ConnPgOK    == ConnName(Shape("postgres", 1, "-", "ok"))
+\* in products with other field groups: the empty string, a usable string of either family, a data source name the driver
+\* refuses, the scheme word without separator, an unknown scheme, a second separator inside the user name
+ConnCore    == {ConnEmpty, ConnMysqlOK, ConnName(Shape("mysql", 1, "-", "bad")), ConnName(Shape("mysql", 0, "-", "empty")),
+                ConnPgOK, ConnName(Shape("other", 1, "-", "ok")), ConnName(Shape("mysql", 2, "user", "ok"))}
 
 \* the groups of fields that one conjunct of Valid reads
 KeyGroup     == [pubKey : PubKeyStates, privKey : PrivKeyStates, isMirror : BOOLEAN, frozenSth : FrozenStates]
@@ -57,7 +106,7 @@ WindowGroup  == [start : TsStates, limit : TsStates]
 DelayGroup   == [mmd : DelayStates, expected : DelayStates]
 RejectGroup  == [rejectExpired : BOOLEAN, rejectUnexpired : BOOLEAN]
 EkuGroup     == [ekus : EkuStates]
-StorageGroup == [backend : BackendStates, connStr : ConnStates]
+StorageGroup == [backend : BackendStates, connStr : ConnCore]      \* every shape: ConnSweep (MCLogConfig)
 IdentGroup   == [logId : {0, 1}, prefix : PrefixStates, isReadonly : BOOLEAN]
 
 (* ---------------- the conjuncts of "well-formed" ---------------- *)
@@ -96,9 +145,11 @@ NotRejectAll(c) == ~(c.rejectExpired /\ c.rejectUnexpired)
 EkusOK(c) == c.ekus \notin {"unknown", "unknownThenAny", "anyThenUnknown"}
 
 \* a usable external-storage connection string when that backend is selected
-UsableConn == {"mysql://ok", "postgres://ok"}
+UsableConn == {ConnName(s) : s \in {x \in ConnShapes : Usable(x)}}
 StorageOK(c) == c.backend = "ctfe" => c.connStr \in UsableConn
 \* (named) ConnIgnoredForTrillian: with the default backend the string is not examined (the implication above)
+\* (named) ValidatedCarriesStorage: the validated configuration repeats the selected backend and, for the external one, the
+\* connection string, byte for byte (it is what the instance opens)
 
 \* (named) TreeIdPresent: log_id = 0 is "absent" and refused
 TreeIdPresent(c) == c.logId # 0
